@@ -425,6 +425,7 @@ class TokWorld:
 # ------------------------------------------------------------------ generation
 
 def gen_piece(rng, ntracks, values, pitch_range, nbars=None, tier="quick", grids=None, ts_range=(2, 16)):
+    nbars_given = nbars
     nbars = nbars or (rng.choice([1, 2, 2, 3, 3, 3, 4, 4, 5, 6]) if tier == "quick" else
                       rng.choice([1, 2, 3, 3, 4, 4, 5, 6, 7, 8, 10]))
     # a small palette per piece, so that a signature is left and *returned to* (A -> B -> A) often
@@ -445,6 +446,28 @@ def gen_piece(rng, ntracks, values, pitch_range, nbars=None, tier="quick", grids
     if rng.random() < 0.6:
         values = rng.sample(values, min(len(values), rng.choice([1, 2, 3])))
     vel_palette = [rng.randrange(1, 128) for _ in range(rng.choice([1, 2, 8]))]
+    # sparse pieces (most bars empty: rests that cross a bar line and span whole bars) and a small palette of onsets, measured
+    # from the start or from the END of the bar - the same "room left in the bar" then recurs under different signatures, which
+    # is where anything remembered about a rest in one signature meets the other one
+    p_empty = rng.choice([0.25, 0.25, 0.25, 0.6, 0.85])
+    onset_palette = [(rng.random() < 0.5, grid * rng.randrange(0, 9)) for _ in range(rng.choice([1, 2, 2]))] \
+        if rng.random() < 0.4 else None
+    # "sparse on the beat": a longer piece of two signatures, about every second bar empty, one or two notes per sounding bar,
+    # onsets on whole beats - the shape in which two rests in different signatures agree in length and in room left
+    sparse = nbars_given is None and rng.random() < 0.1
+    if sparse:
+        nbars = rng.randrange(6, 11)
+        track_len = [nbars if t == 0 or rng.random() < 0.5 else rng.randrange(0, nbars + 1) for t in range(ntracks)]
+        quarter = [sg for sg in palette if sg[1] == 4] or [sg for sg in sigs_ok if sg[1] == 4]
+        if len(quarter) < 2:
+            quarter = [sg for sg in sigs_ok if sg[1] == 4][:3] or palette
+        palette = quarter[:3]
+        sig = rng.choice(palette)
+        p_change = rng.choice([0.2, 0.35, 0.5])
+        p_repeat_bar = 0.0
+        p_empty = rng.choice([0.4, 0.55])
+        grid = 24 if bar_len(*sig) % 24 == 0 and (grids is None or 24 % max(grids) == 0) else grid
+        onset_palette = None
     for k in range(nbars):
         if k > 0 and rng.random() < p_repeat_bar:
             src = bars[rng.randrange(len(bars))]
@@ -458,9 +481,9 @@ def gen_piece(rng, ntracks, values, pitch_range, nbars=None, tier="quick", grids
         tracks = []
         for tr in range(ntracks):
             notes = []
-            if k < track_len[tr] and rng.random() > 0.25:
+            if k < track_len[tr] and rng.random() > p_empty:
                 last_end = {}
-                for _ in range(rng.randrange(1, 5)):
+                for _ in range(rng.randrange(1, 5) if onset_palette is None and not sparse else rng.randrange(1, 3)):
                     p = rng.choice(pitches[tr])
                     dur = rng.choice(values)
                     lo_i = -(-last_end.get(p, 0) // grid)
@@ -468,6 +491,11 @@ def gen_piece(rng, ntracks, values, pitch_range, nbars=None, tier="quick", grids
                     if hi_i < lo_i:
                         continue
                     on = grid * rng.randrange(lo_i, hi_i + 1)
+                    if onset_palette is not None:
+                        from_end, off = rng.choice(onset_palette)
+                        cand = (L - dur - off) if from_end else off
+                        if cand % grid == 0 and lo_i * grid <= cand <= hi_i * grid:
+                            on = cand
                     notes.append([p, on, dur, rng.choice(vel_palette)])
                     last_end[p] = on + dur
                 notes.sort(key=lambda x: (x[1], x[0]))
